@@ -35,21 +35,22 @@ CHECKS = {
          "they remove and are never stored; no duplicates and no TTL-0 record in any reachable cache (arbitrary, even late, firings). "
          "Tie and monitor as for C05.",
          "DESIGN.md section 4 (C05/C06/C18)", "Rocq proof of addRecord's shape and reachable-state invariants + SrcFacts decision-expression regeneration + differential correspondence + monitor"),
- "C01": ("Theorem C01_name_roundtrip_partial (Properties_C01.v): for every buffer written so far, every compression map satisfying the "
-         "invariant MapOK (each entry maps a suffix to an offset below 16 KiB where that suffix is conformantly encoded) and every "
-         "well-formed name, writeName appends a conformant encoding (relation NameAt, with compression pointers to earlier "
-         "occurrences), advances the offset by the bytes appended, re-establishes MapOK, and the library's own parseName reads the "
-         "bytes back as exactly that name. The record and message layers are tied per run: the model's to_packet is compared byte for "
-         "byte with the real toPacket on generated well-formed messages (suffix-sharing names incl. letter-case variants, boundary "
-         "TTLs, TXT/NSEC shapes, hundreds of records), an independent strict RFC 1035/6762 decoder must read the real bytes back as the "
-         "message, and so must the real fromPacket.",
-         "DESIGN.md section 4 (C01)", "Rocq proof of the name writer w.r.t. the relational wire spec, composed with the decoder-completeness theorem + byte-exact differential correspondence + independent reference decoder"),
- "C02": ("Theorem (Properties_C02.v, partial): for every placement of compression pointers that RFC 1035 allows (relation NameAt: pointer to "
-         "any earlier offset where the remaining labels are encoded, chains of any length, any label bytes) parseName returns exactly the "
-         "name and the in-place end offset. The record and message layers are tied, not yet proved: an independent reference encoder "
-         "(random legal compression choices, unsupported types with opaque rdata, multi-string TXT with empty strings, counts split over "
-         "sections) feeds fromPacket and the model; both must return the source message exactly.",
-         "DESIGN.md section 4 (C02)", "Rocq proof of name-decoder completeness w.r.t. a relational wire spec + reference-encoder differential correspondence"),
+ "C01": ("Theorems (Properties_C01.v, over EncoderProofs.v / EncoderMsg.v): C01_packet_conformant - for every well-formed message (16-bit id; "
+         "names of 1.. labels of 1..63 bytes; A, AAAA, PTR, SRV, TXT, NSEC records with in-range fields; uncompressed size <= 16 KiB) the "
+         "bytes of to_packet satisfy MessageAt, the RFC 1035/6762 wire format stated as a relation independent of the library (header "
+         "counts, rdlength, per-type rdata layout, every compression pointer targeting an earlier offset where the remaining labels are "
+         "encoded); C01_decode_encode - the library's own decoder applied to those bytes returns the message (sender address/port cleared, "
+         "each record reduced to name, type, flush bit, TTL and the data of its type). Proof: compression-map invariant MapOK re-established "
+         "by writeName, threaded through records, questions and the message. Tie: the model's to_packet is compared byte for byte with the "
+         "real toPacket on generated well-formed messages; an independent strict decoder and the real fromPacket must read the real bytes back.",
+         "DESIGN.md section 4 (C01)", "Rocq proof: encoder output satisfies the relational wire spec (all layers), composed with decoder completeness + byte-exact differential correspondence + independent reference decoder"),
+ "C02": ("Theorems (Properties_C02.v, over DecoderComplete.v / DecoderMsg.v): C02_decoder_complete - for every packet of at most 65535 bytes and "
+         "every message m with MessageAt p m (any legal placement of compression pointers incl. into earlier rdata, chains of any length, "
+         "any label bytes; any TXT string layout incl. empty strings; records of unsupported types with arbitrary rdata of the declared "
+         "length; counts distributed over the three sections in any way) decode p = Ok m; C02_record_complete - one record of any type, the "
+         "cursor ending exactly behind its rdata. Tie: packets from an independent reference encoder choosing among all legal encodings are "
+         "decoded by the real fromPacket and by the model; both must return the source message.",
+         "DESIGN.md section 4 (C02)", "Rocq proof: decoder completeness w.r.t. the relational wire spec (all layers) + differential correspondence on reference-encoder packets"),
  "C03": ("Theorems (Properties_C03.v): for every buffer content, length <= 65535 and start offset, fromPacket / parseRecord / parseName of "
          "the faithful model never perform a raw read at index >= length (every read the C++ does through constData() is modelled as "
          "Fault when out of bounds) and never exhaust fuel length+1 (termination bound); results depend only on the bytes inside the "
